@@ -436,6 +436,34 @@ def ord_ind_jobs(ctx, colls, maxn, shards, limit=None, handles=0, max_events=600
     return futs
 
 
+IND_KEY_INV = ["Structure", "Refinement", "IsEmptyOK", "IndExport", "EmitState"]
+
+
+def ind_key_model(ctx, maxn, emit=False, faults=False):
+    """IndKey: one step of every kind from every valid tree with <= maxn nodes x every pattern of expirations"""
+    consts = dict(key_consts(2 * maxn + 1, 1, faults=faults, emit=emit), MaxN=maxn, MinN=0)
+    r = ctx.model(f"indkey-n{maxn}{'f' if faults else ''}", "IndKey", consts, IND_KEY_INV, workers=8, want_output=emit,
+                  view=False, init="IndInit", nxt="IndNext")
+    want = sum(rb_tree_count(n) * 2 ** n * 2 for n in range(0, maxn + 1))
+    states = []
+    if emit:
+        states = [json.loads(ln)[6:] for ln in r["out"].splitlines() if ln.startswith('"STATE ')]
+        del r["out"]
+        if len(states) != want:
+            raise ToolError(f"IndKey n<={maxn}: TLC printed {len(states)} start states, the independent count gives {want}")
+    r["consts"] = dict(r["consts"], Keys=f"1..{2 * maxn + 1}", start_states=want,
+                       note="every red-black tree with <= MaxN nodes x every assignment of expirations {1,2} x {full arena, free slots}; clock 0, calls at times 0 and 1")
+    ctx.notes.append(f"indkey-n{maxn}: {want} start states = all red-black trees with <= {maxn} nodes (count cross-checked) x all expiry patterns x 2 arena situations")
+    return states
+
+
+def key_ind_jobs(ctx, maxn, shards, limit=None, export=0, max_events=600000):
+    states = ind_key_model(ctx, maxn, emit=True)
+    files = write_shards(ctx, f"ind-keytree-n{maxn}", states, shards, ctx.seed, limit)
+    return [ctx.submit(f"ind-keytree-n{maxn}-{i}", "keytree", "ind", {"states": pf, "export": export, "max_events": max_events})
+            for i, pf in enumerate(files)]
+
+
 ASSUME_COMMON = [
     "TLC decides the property on the layer-1 model within the stated constants; the code is tied to the specification by the validated traces only",
     "the harness build (opt-level 2, debug assertions, overflow checks, std unsafe-precondition checks) behaves like the release build except that out-of-contract indexing aborts instead of being silent",
@@ -463,13 +491,15 @@ def plan_key_semantics(ctx):
     futs += random_jobs(ctx, ["keytree"], 1 if q else 4, {"keys": 24, "tspan": 9, "steps": 1500 if q else 8000, "seglen": 200}, tag="-wide")
     # many entries, slow expiry, no clears: when the caller's clock jumps, one search removes a long chain of roots
     futs += random_jobs(ctx, ["keytree"], 1 if q else 3, {"keys": 60, "tspan": 40, "steps": 1500 if q else 8000, "seglen": 500, "clears": 0}, tag="-chain")
+    # one step of every kind from every valid tree x every pattern of expired / live nodes
+    futs += key_ind_jobs(ctx, 4 if q else 6, 2 if q else 6, limit=120 if q else 3000)
     ctx.collect(futs)
     return ctx.finish(
         "model: every history over the key universe and time line (fixpoint, unbounded length); conformance: TLC-generated "
         "cover paths replayed on the real collection with every in-contract call of the alphabet fanned out from each covered "
         "state, plus seeded random histories; distinct_nontrivial counts distinct (canonical physical pre-state, call) pairs "
-        "executed on the real code",
-        ASSUME_COMMON)
+        "executed on the real code" + IND_RULE,
+        ASSUME_COMMON + [IND_ASSUME])
 
 
 
@@ -559,6 +589,7 @@ def plan_structure(ctx):
     futs += key_cover_jobs(ctx, ["keytree"], 3, 3, [0] if q else [0, 9], 2 if q else 4, export=0, limit=200 if q else None)
     futs += ord_ind_jobs(ctx, ["maptree-i32", "settree-str"] if q else ["maptree-i32", "maptree-str", "settree-i32", "settree-str"],
                          8 if q else 11, 2 if q else 4, limit=100 if q else 4000)
+    futs += key_ind_jobs(ctx, 4 if q else 6, 1 if q else 4, limit=60 if q else 2000)
     trees = ["maptree-i32", "settree-str", "keytree"] if q else ["maptree-i32", "maptree-str", "settree-i32", "settree-str", "keytree"]
     for coll in trees:
         base = {"keys": 12, "steps": 2000 if q else 10000, "seglen": 150}
@@ -623,6 +654,8 @@ def plan_export(ctx):
     futs = key_cover_jobs(ctx, ["keytree", "keylist"], 3, 3, [0], 2 if q else 4, fanout=1, export=2, limit=260 if q else None)
     futs += random_jobs(ctx, ["keytree", "keylist"], 2 if q else 8, {"keys": 8, "tspan": 5, "steps": 2500 if q else 12000, "seglen": 25})
     futs += random_jobs(ctx, ["keytree", "keylist"], 1 if q else 4, {"keys": 40, "tspan": 12, "steps": 2000 if q else 10000, "seglen": 120}, tag="-wide")
+    # export from every valid tree x every pattern of expired / live nodes, at both times
+    futs += key_ind_jobs(ctx, 4 if q else 6, 2 if q else 6, limit=120 if q else 3000, export=1)
     if ctx.pid == "C19":
         # the sorted list inserts in O(n) per call (descending order: O(n^2) in total), so its sizes stay
         # moderate; the quadratic cost is the list's nature, not something C19 or C10 speak about
@@ -641,6 +674,8 @@ def plan_faults(ctx):
     ctx.model("mckey-f", "MCKey", key_consts(3, 2 if q else 3, faults=True), KEY_INV)
     ctx.model("mcord-a", "MCOrd", ord_consts(5 if q else 7), ORD_INV)
     ctx.model("mclist-f", "MCKeyList", {"Keys": keyset(3), "MaxTime": 3 if q else 4, "Faults": "TRUE"}, ["MinExpOK", "Refinement"])
+    # every callback point of one call from every valid tree x every pattern of expired / live nodes
+    ind_key_model(ctx, 4 if q else 5, faults=True)
     seg_models(ctx, faults=True)
     futs = key_cover_jobs(ctx, ["keytree", "keylist"], 3, 2, [0], 2 if q else 4, driver="faults", limit=24 if q else 200,
                           flags=("fault",), max_events=60000 if q else 600000)
